@@ -323,35 +323,111 @@ def _decide(case, turn, site, occ):
     return case.get("verdicts", {}).get(f"{turn}:{site}", "A")
 
 
-def run_c03_v1(case):
+V1_C03_CO = '''
+define user express greeting
+  "hi"
+
+define flow greet
+  user express greeting
+  $info = execute dialog_action
+  bot express greeting
+
+define subflow in1
+  $allowed = execute in_rail_1(text=$user_message)
+  if not $allowed
+    bot refuse to respond
+    stop
+
+define subflow out1
+  $allowed = execute out_rail_1(text=$bot_message)
+  if not $allowed
+    bot refuse to respond
+    stop
+
+define subflow ret0
+  execute ret_rail_0(text=$relevant_chunks)
+'''
+# rail 0 of both categories is the SHIPPED self-check flow (library/self_check/*/flows.v1.co), its
+# action replaced by the scripted one; rail 1 is a custom flow of the same shape
+V1_C03_YAML = '''
+models: []
+rails:
+  input:
+    flows:
+      - self check input
+      - in1
+  output:
+    flows:
+      - self check output
+      - out1
+  retrieval:
+    flows:
+      - ret0
+prompts:
+  - task: self_check_input
+    content: "unused {{ user_input }}"
+  - task: self_check_output
+    content: "unused {{ bot_response }}"
+'''
+V1_ACTIONS = {"in_rail_0": "self_check_input", "in_rail_1": "in_rail_1", "out_rail_0": "self_check_output",
+              "out_rail_1": "out_rail_1", "ret_rail_0": "ret_rail_0", "dialog_action": "dialog_action"}
+
+
+def _c03_app(version):
+    """One LLMRails per worker process and Colang version; scripted actions read the current
+    conversation from `box`.  Conversations are separated by emptying the history cache (v1) /
+    starting from an empty state object (v2)."""
+    key = "c03" + version
+    if key in _APP_CACHE:
+        return _APP_CACHE[key]
     Rails, RailsConfig, ActionResult, ScriptLLM = _impl()
-    cfg = v1_config(2, 2, 1, "flows", True)
+    if version == "v1":
+        cfg = RailsConfig.from_content(colang_content=V1_C03_CO, yaml_content=V1_C03_YAML)
+        names = V1_ACTIONS
+    else:
+        cfg = RailsConfig.from_content(V2_CO, 'colang_version: "2.x"\n')
+        names = V2_ACTIONS
     llm = ScriptLLM(responses=[])
     llm.tasks = []
     app = Rails(cfg, llm=llm)
-    calls = []
-    turn = [0]
-    occ = {}
+    box = {"case": None, "turn": 0, "occ": {}, "calls": []}
 
     def mk(name):
-        async def act(text=None):
-            k = occ.get(name, 0)
-            occ[name] = k + 1
-            calls.append([name, text if name.startswith(("in_", "out_")) else None])
-            v = _decide(case, turn[0], name, k)
+        async def act(text=None, context=None):
+            k = box["occ"].get(name, 0)
+            box["occ"][name] = k + 1
+            if name.startswith("in_") and text is None and context is not None and version == "v1":
+                text = context.get("user_message")
+            if name.startswith("out_") and text is None and context is not None and version == "v1":
+                text = context.get("bot_message")
+            box["calls"].append([name, text if name.startswith(("in_", "out_")) else None])
+            v = _decide(box["case"], box["turn"], name, k)
             if v == "X":
                 raise RuntimeError("scripted fault")
+            if name == "gen_action":
+                return f"{LLM_TEXT}-{box['turn']}"
+            if name == "ret_action":
+                return "chunks"
             return v != "R"
         return act
 
-    for n in V1_SITES:
-        app.register_action(mk(n), n)
+    for n, a in names.items():
+        app.register_action(mk(n), a)
+    _APP_CACHE[key] = (app, llm, box)
+    return _APP_CACHE[key]
+
+
+def run_c03_v1(case):
+    app, llm, box = _c03_app("v1")
+    app.events_history_cache.clear()
+    llm.tasks = []
+    box["case"] = case
     msgs = []
     out = []
     for t in range(case["turns"]):
-        turn[0] = t
-        occ.clear()
-        calls.clear()
+        box["turn"] = t
+        box["occ"] = {}
+        box["calls"] = []
         n0 = len(llm.tasks)
         user = f"USER-TEXT-{t}"
         msgs.append({"role": "user", "content": user})
@@ -364,7 +440,7 @@ def run_c03_v1(case):
         except Exception as e:
             o["exc"] = type(e).__name__
             o["exc_msg"] = str(e)[:200]
-        o["calls"] = [list(c) for c in calls]
+        o["calls"] = [list(c) for c in box["calls"]]
         o["llm"] = len(llm.tasks) - n0
         out.append(o)
         if o["exc"]:
@@ -422,39 +498,14 @@ V2_ACTIONS = {"in_rail_0": "InRail0Action", "in_rail_1": "InRail1Action", "out_r
 
 
 def run_c03_v2(case):
-    Rails, RailsConfig, ActionResult, ScriptLLM = _impl()
-    if "v2cfg" not in _CFG_CACHE:
-        _CFG_CACHE["v2cfg"] = RailsConfig.from_content(V2_CO, 'colang_version: "2.x"\n')
-    llm = ScriptLLM(responses=[])
-    llm.tasks = []
-    app = Rails(_CFG_CACHE["v2cfg"], llm=llm)
-    calls = []
-    turn = [0]
-    occ = {}
-
-    def mk(name):
-        async def act(text=None):
-            k = occ.get(name, 0)
-            occ[name] = k + 1
-            calls.append([name, text if name.startswith(("in_", "out_")) else None])
-            v = _decide(case, turn[0], name, k)
-            if v == "X":
-                raise RuntimeError("scripted fault")
-            if name == "gen_action":
-                return f"{LLM_TEXT}-{turn[0]}"
-            if name == "ret_action":
-                return "chunks"
-            return v != "R"
-        return act
-
-    for n, a in V2_ACTIONS.items():
-        app.register_action(mk(n), a)
+    app, llm, box = _c03_app("v2")
+    box["case"] = case
     state = {}
     out = []
     for t in range(case["turns"]):
-        turn[0] = t
-        occ.clear()
-        calls.clear()
+        box["turn"] = t
+        box["occ"] = {}
+        box["calls"] = []
         user = f"USER-TEXT-{t}"
         o = {"turn": t, "user": user, "exc": None, "reply": None}
         try:
@@ -465,7 +516,7 @@ def run_c03_v2(case):
         except Exception as e:
             o["exc"] = type(e).__name__
             o["exc_msg"] = str(e)[:200]
-        o["calls"] = [list(c) for c in calls]
+        o["calls"] = [list(c) for c in box["calls"]]
         o["llm"] = 0
         out.append(o)
         if o["exc"]:
